@@ -90,6 +90,13 @@ pub enum Op {
         v: i32,
         w: i32,
     },
+    /// `[\global]\<kind><to>=\<kind><from> `: one register assigned from another of its kind.
+    CopyReg {
+        g: bool,
+        kind: RegKind,
+        from: u16,
+        to: u16,
+    },
     /// Assignment through a `\countdef`/`\toksdef` alias; a no-op if the name is not such an alias.
     SetViaAlias {
         g: bool,
